@@ -486,6 +486,9 @@ pub mod std_compile {
         }
         Ok(())
     }
+
+    #[cfg(truth_verif)]
+    pub fn verif_run(truth: &mut Truth, common_options: &CommonCompileOptions) -> Result<(), ErrorReported> { run(truth, common_options) }
 }
 
 pub mod std_decompile {
@@ -517,6 +520,9 @@ pub mod std_decompile {
         let std = truth.read_std(game, in_path)?;
         truth.decompile_std(game, &std, decompile_options)
     }
+
+    #[cfg(truth_verif)]
+    pub fn verif_decompile(truth: &mut Truth, common_options: &CommonDecompileOptions) -> Result<ScriptFile, ErrorReported> { decompile(truth, common_options) }
 }
 
 pub mod msg_redump {
@@ -601,6 +607,9 @@ pub mod msg_compile {
         }
         Ok(())
     }
+
+    #[cfg(truth_verif)]
+    pub fn verif_run(truth: &mut Truth, common_options: &CommonCompileOptions, msg_mode: MsgMode) -> Result<(), ErrorReported> { run(truth, common_options, msg_mode) }
 }
 
 pub mod msg_decompile {
@@ -643,6 +652,9 @@ pub mod msg_decompile {
         let msg = truth.read_msg(game, language, in_path)?;
         truth.decompile_msg(game, language, &msg, decompile_options)
     }
+
+    #[cfg(truth_verif)]
+    pub fn verif_decompile(truth: &mut Truth, common_options: &CommonDecompileOptions, msg_mode: MsgMode) -> Result<ScriptFile, ErrorReported> { decompile(truth, common_options, msg_mode) }
 }
 
 // =============================================================================
@@ -1242,5 +1254,51 @@ mod cli {
                 matches.free.pop().ok_or_else(|| error!("missing required positional arg {}", self.metavar))
             }
         }
+    }
+}
+
+// =============================================================================
+
+/// Verification hooks (only with `--cfg truth_verif`): lets an external harness run the exact
+/// pipelines of the CLI entry points in-process, without `process::exit`.
+#[cfg(truth_verif)]
+pub mod verif {
+    use super::*;
+    pub use super::cli::{CommonCompileOptions, CommonDecompileOptions, MapfileOptions, MsgMode};
+
+    pub fn anm_compile(truth: &mut Truth, o: &CommonCompileOptions, image_sources: &[PathBuf], thecl_defs: Option<PathBuf>) -> Result<(), ErrorReported> {
+        super::anm_compile::run(truth, o, image_sources, thecl_defs)
+    }
+    pub fn anm_decompile(truth: &mut Truth, o: &CommonDecompileOptions) -> Result<ScriptFile, ErrorReported> {
+        super::anm_decompile::decompile(truth, o)
+    }
+    pub fn anm_extract(truth: &mut Truth, game: Game, path: &Path, outdir: &Path) -> Result<(), ErrorReported> {
+        super::anm_extract::run(truth, game, path, outdir)
+    }
+    pub fn ecl_compile(truth: &mut Truth, o: &CommonCompileOptions) -> Result<(), ErrorReported> {
+        super::ecl_compile::run(truth, o)
+    }
+    pub fn ecl_decompile(truth: &mut Truth, o: &CommonDecompileOptions) -> Result<ScriptFile, ErrorReported> {
+        super::ecl_decompile::decompile(truth, o)
+    }
+    pub fn std_compile(truth: &mut Truth, o: &CommonCompileOptions) -> Result<(), ErrorReported> {
+        super::std_compile::verif_run(truth, o)
+    }
+    pub fn std_decompile(truth: &mut Truth, o: &CommonDecompileOptions) -> Result<ScriptFile, ErrorReported> {
+        super::std_decompile::verif_decompile(truth, o)
+    }
+    pub fn msg_compile(truth: &mut Truth, o: &CommonCompileOptions, mode: MsgMode) -> Result<(), ErrorReported> {
+        super::msg_compile::verif_run(truth, o, mode)
+    }
+    pub fn msg_decompile(truth: &mut Truth, o: &CommonDecompileOptions, mode: MsgMode) -> Result<ScriptFile, ErrorReported> {
+        super::msg_decompile::verif_decompile(truth, o, mode)
+    }
+    /// Same formatting step as `wrap_decompile_to_stdout`, into a byte vector.
+    pub fn format_script(truth: &mut Truth, ast: &ScriptFile, max_columns: usize) -> Result<Vec<u8>, ErrorReported> {
+        let mut out = vec![];
+        let fmt_config = crate::fmt::Config::new().max_columns(max_columns);
+        crate::Formatter::with_config(io::BufWriter::new(&mut out), fmt_config)
+            .fmt(ast).map_err(|e| truth.emit(error!("{:#}", e)))?;
+        Ok(out)
     }
 }
